@@ -515,6 +515,8 @@ func c14PruneFilter(c *Ctx) {
 							// the same comparison inside a helper, on the helper's own parameter
 						case !strings.HasPrefix(a, "!") && strings.HasSuffix(core, " >= "+wfTerm(sp.pat)+")") && !strings.ContainsAny(strings.TrimSuffix(core, " >= "+wfTerm(sp.pat)+")"), "+-*/%"):
 						case strings.Contains(a, "GetHeight() >= "+wfTerm(sp.pat)) && !strings.HasPrefix(a, "!"):
+						case c14IsNotBelowWatermark(a, wfTerm(sp.pat)):
+							// any spelling of "height ≥ watermark" on a plain height (mirrored operands, negated complement)
 						case !strings.ContainsAny(core, "<>=") || (strings.HasPrefix(core, "s.") && strings.HasSuffix(core, ")") && !strings.Contains(core, " ")):
 							// a boolean helper call atom: its inlined conditions are judged by the other cases
 						default:
@@ -1019,4 +1021,45 @@ func wfTerm(pat string) string {
 		return strings.TrimSuffix(pat[i+1:], ")")
 	}
 	return pat
+}
+
+// c14IsNotBelowWatermark: atom a says "h ≥ wf" for some arithmetic-free h, in any of the spellings
+// !(h < wf), (h >= wf), (wf <= h), !(wf > h).
+func c14IsNotBelowWatermark(a, wf string) bool {
+	neg := strings.HasPrefix(a, "!")
+	core := strings.TrimPrefix(a, "!")
+	if !strings.HasPrefix(core, "(") || !strings.HasSuffix(core, ")") {
+		return false
+	}
+	core = core[1 : len(core)-1]
+	for _, op := range []string{" <= ", " >= ", " < ", " > "} {
+		i := strings.Index(core, op)
+		if i < 0 {
+			continue
+		}
+		l, r := core[:i], core[i+len(op):]
+		var h string
+		wfLeft := false
+		switch {
+		case l == wf:
+			h, wfLeft = r, true
+		case r == wf:
+			h = l
+		default:
+			return false
+		}
+		if strings.ContainsAny(h, "+-*/%") {
+			return false
+		}
+		o := strings.TrimSpace(op)
+		// normalise to a relation between h and wf
+		if wfLeft { // wf o h  ⇒  h o' wf
+			o = map[string]string{"<=": ">=", ">=": "<=", "<": ">", ">": "<"}[o]
+		}
+		if neg {
+			o = map[string]string{"<=": ">", ">=": "<", "<": ">=", ">": "<="}[o]
+		}
+		return o == ">="
+	}
+	return false
 }
